@@ -65,6 +65,7 @@ def gen_case(rng, big=False, tie=False):
         for i in range(d):
             for j in range(i):
                 H[i][j] = dec(rng, -2, 2, 2)
+        common.sparse_tilt(rng, H)
     ppp = [rng.choice(["0", "1"]) for _ in range(d)]
     if rng.random() < 0.5:
         ppp = ["1"] * d
@@ -85,6 +86,7 @@ def gen_case(rng, big=False, tie=False):
             for i in range(d):
                 for j in range(i):
                     H[i][j] = dec(rng, -2, 2, 2)
+            common.sparse_tilt(rng, H)
         Lf = [float(x) for x in L]
         if config == "line":
             y = [str(Fraction(rng.randint(0, 16), 4)) for _ in range(d)]
